@@ -609,6 +609,8 @@ pub struct Ans {
     pub any_flags: Vec<bool>,
     /// number of non-disequality constraints reported
     pub other_constraints: usize,
+    /// ordered pairs (i, j) of query variables for which `row[i].is_any_except(&row[j])` holds
+    pub any_except: Vec<(usize, usize)>,
 }
 
 impl std::fmt::Display for Ans {
@@ -676,7 +678,16 @@ pub fn decode_row<U: User, E: Engine<U>>(row: &Row<U, E>) -> Ans {
         let mut o = 0;
         per_var.push(dec_cstore(&mut dec, &mut r.constraints(), &mut o));
     }
+    let mut any_except = vec![];
+    for (i, ri) in row.0.iter().enumerate() {
+        for (j, rj) in row.0.iter().enumerate() {
+            if i != j && ri.is_any_except(&rj.0) {
+                any_except.push((i, j));
+            }
+        }
+    }
     Ans {
+        any_except,
         terms,
         cons,
         per_var,
